@@ -193,7 +193,8 @@ func (R *Repository) createTempFile() (string, error) {
 }
 
 func (R *Repository) IsRevoked(certificate *x509.Certificate, locations *core.CRLLocations) (*core.RevocationStatus, error) {
-	if locations != nil {
+	//only in strict mode a CDP which can not be used (unsupported scheme, invalid url, not loaded) denies the connection
+	if locations != nil && R.crlConfig.CDPConfig.CRLCDPStrict {
 		loader, err := R.crlLoaderFactory.CreatePreferredCrlLoader(locations, R.logger)
 		if err != nil {
 			return nil, err
@@ -203,7 +204,7 @@ func (R *Repository) IsRevoked(certificate *x509.Certificate, locations *core.CR
 			return nil, err
 		}
 		//In strict mode enforce CDP CRL is loaded otherwise abort
-		if R.crlConfig.CDPConfig.CRLCDPStrict && R.isEntryPresentAndLoaded(identifier) == false {
+		if R.isEntryPresentAndLoaded(identifier) == false {
 			return nil, fmt.Errorf("CRL defined in CDP was not loaded")
 		}
 	}
